@@ -335,8 +335,8 @@ pub fn standard_sources(run: &Run, with_formulas: bool) -> Vec<Source> {
         v.push(Source::FamCompact(f42));
         // mid-size: ring ADFs with 6 and 7 statements, one residue class each (complete in the thorough tier)
         v.push(Source::Tern(4, 0, 1));
-        v.push(Source::Tern(5, run.seed % 4, 4));
-        v.push(Source::Ring(6, run.seed % 16, 16));
+        v.push(Source::Tern(5, run.seed % 8, 8));
+        v.push(Source::Ring(6, run.seed % 32, 32));
         v.push(Source::Ring(7, run.seed % 512, 512));
         v.push(Source::Ring(8, run.seed % 16384, 16384));
         v.push(Source::Sparse(run.seed * 1000, 24));
